@@ -32,6 +32,30 @@ pub open spec fn commit_spec(powers: &Powers, p: Seq<FS>, blind: Seq<FS>) -> FS 
     f_add(msm(powers.powers_of_g@, p, p.len()),
           msm(powers.powers_of_gamma_g@, blind, min(powers.powers_of_gamma_g@.len(), blind.len())))
 }
+// ---- KZG10::batch_check: random linear combination of the single checks.
+//      r_0 = 1, r_i = (i-th 128-bit draw of the verifier's RNG);  n = number of complete (commitment, point, value, proof) tuples
+pub open spec fn vk_wf(vk: &VerifierKey) -> bool { vk.prepared_h@ == vk.h@ && vk.prepared_beta_h@ == vk.beta_h@ }
+pub open spec fn bc_len(cs: Seq<Commitment>, zs: Seq<Fr>, vs: Seq<Fr>, ps: Seq<Proof>) -> nat { min(min(min(cs.len(), zs.len()), vs.len()), ps.len()) }
+pub open spec fn bc_r(id: int, pos: nat, i: nat) -> FS { if i == 0 { f_one() } else { draw_u128(id, (pos + i - 1) as nat) } }
+pub open spec fn bc_total_c(cs: Seq<Commitment>, zs: Seq<Fr>, ps: Seq<Proof>, id: int, pos: nat, k: nat) -> FS decreases k {
+    if k == 0 { f_zero() } else { let i = (k - 1) as nat;
+        f_add(bc_total_c(cs, zs, ps, id, pos, i), f_mul(f_add(f_mul(ps[i as int].w@, zs[i as int]@), cs[i as int].0@), bc_r(id, pos, i))) }
+}
+pub open spec fn bc_total_w(ps: Seq<Proof>, id: int, pos: nat, k: nat) -> FS decreases k {
+    if k == 0 { f_zero() } else { let i = (k - 1) as nat; f_add(bc_total_w(ps, id, pos, i), f_mul(ps[i as int].w@, bc_r(id, pos, i))) }
+}
+pub open spec fn bc_g_mult(vs: Seq<Fr>, id: int, pos: nat, k: nat) -> FS decreases k {
+    if k == 0 { f_zero() } else { let i = (k - 1) as nat; f_add(bc_g_mult(vs, id, pos, i), f_mul(bc_r(id, pos, i), vs[i as int]@)) }
+}
+pub open spec fn bc_gamma_mult(ps: Seq<Proof>, id: int, pos: nat, k: nat) -> FS decreases k {
+    if k == 0 { f_zero() } else { let i = (k - 1) as nat;
+        match ps[i as int].random_v { Some(rv) => f_add(bc_gamma_mult(ps, id, pos, i), f_mul(bc_r(id, pos, i), rv@)), None => bc_gamma_mult(ps, id, pos, i) } }
+}
+// e(-sum r_i W_i, beta H) * e(sum r_i (C_i + z_i W_i) - (sum r_i v_i) G - (sum r_i rv_i) gamma G, H) == 1
+pub open spec fn kzg_batch_relation(vk: &VerifierKey, cs: Seq<Commitment>, zs: Seq<Fr>, vs: Seq<Fr>, ps: Seq<Proof>, id: int, pos: nat, n: nat) -> bool {
+    f_add(pair(f_neg(bc_total_w(ps, id, pos, n)), vk.beta_h@),
+          pair(f_sub(f_sub(bc_total_c(cs, zs, ps, id, pos, n), f_mul(vk.g@, bc_g_mult(vs, id, pos, n))), f_mul(vk.gamma_g@, bc_gamma_mult(ps, id, pos, n))), vk.h@)) == f_zero()
+}
 impl Powers {
     // mirror of kzg10::Powers::size (a one-line getter)
     pub fn size(&self) -> (r: usize) ensures r == self.powers_of_g@.len() { self.powers_of_g.len() }
@@ -76,6 +100,30 @@ impl Randomness {
 
 pub struct KZG10;
 impl KZG10 {
+//@fn id=kzg10.batch_check file=poly-commit/src/kzg10/mod.rs scope="impl<E, P> KZG10<E, P>" name=batch_check props=C05,C10,C02,C17
+    pub fn batch_check(vk: &VerifierKey, commitments: &[Commitment], points: &[Fr], values: &[Fr], proofs: &[Proof], rng: &mut Rng) -> (res: Result<bool, Error>)
+    requires
+        vk_wf(vk),
+    ensures
+        res is Ok,
+        res->Ok_0 ==> commitments@.len() == points@.len() && points@.len() == values@.len() && values@.len() == proofs@.len(),   // name=kzg10.batch_check.accept_implies_equal_lengths props=C05 finding=F5
+        res->Ok_0 == kzg_batch_relation(vk, commitments@, points@, values@, proofs@, old(rng).id@, old(rng).pos@, bc_len(commitments@, points@, values@, proofs@)),   // name=kzg10.batch_check.relation props=C05,C10,C02
+//@body
+//@rw 1 /u128::rand\(rng\)\.into\(\)/ => Fr::from_u128_rand(rng)
+//@rw 1 /E::multi_pairing\(/ => E::multi_pairing2(
+//@rw 1 /commitments\.iter\(\)\.zip\(points\)\.zip\(values\)\.zip\(proofs\)/ => commitments.iter().zip(points.iter()).zip(values.iter()).zip(proofs.iter())
+//@loop 1 kw=for name=it
+          invariant
+            vk_wf(vk),
+            it.index@ <= bc_len(commitments@, points@, values@, proofs@),
+            rng.id == old(rng).id, rng.pos@ == old(rng).pos@ + it.index@,
+            randomizer@ == bc_r(old(rng).id@, old(rng).pos@, it.index@ as nat),
+            total_c@ == bc_total_c(commitments@, points@, proofs@, old(rng).id@, old(rng).pos@, it.index@ as nat),
+            total_w@ == bc_total_w(proofs@, old(rng).id@, old(rng).pos@, it.index@ as nat),
+            g_multiplier@ == bc_g_mult(values@, old(rng).id@, old(rng).pos@, it.index@ as nat),
+            gamma_g_multiplier@ == bc_gamma_mult(proofs@, old(rng).id@, old(rng).pos@, it.index@ as nat),
+//@end
+
 //@fn id=kzg10.check_degree_is_too_large file=poly-commit/src/kzg10/mod.rs scope="impl<E, P> KZG10<E, P>" name=check_degree_is_too_large props=C17,C04
     pub fn check_degree_is_too_large(degree: usize, num_powers: usize) -> (res: Result<(), Error>)
     requires
@@ -238,3 +286,172 @@ fn convert_to_bigints(p: &[Fr]) -> (res: Vec<BigInt>)
 //@body
 //@closure |s| => |s: &Fr| -> (b: BigInt) ensures b@ == s@
 //@end
+
+// ======================= C01: completeness of KZG10 as a lemma over the contracts above =======================
+// Key material in trapdoor form (this is what KZG10::setup + trim establish, see units/kzg10_setup.rs):
+pub open spec fn srs_ok(powers: &Powers, vk: &VerifierKey, beta: FS) -> bool {
+    geometric(g1views(powers.powers_of_g@), vk.g@, beta, 0)
+    && geometric(g1views(powers.powers_of_gamma_g@), vk.gamma_g@, beta, 0)
+    && vk.beta_h@ == f_mul(vk.h@, beta)
+}
+proof fn lemma_pow0(x: FS, g: FS) ensures f_mul(g, f_pow(x, 0)) == g { broadcast use ring_axioms; }
+
+// (g*(W*(b-z)) + c*(R*(b-z))) * h == (g*W + c*R) * (h*b - h*z)
+proof fn lemma_kzg_algebra(g: FS, c: FS, h: FS, b: FS, z: FS, w: FS, r: FS)
+    ensures f_mul(f_add(f_mul(g, f_mul(w, f_sub(b, z))), f_mul(c, f_mul(r, f_sub(b, z)))), h)
+         == f_mul(f_add(f_mul(g, w), f_mul(c, r)), f_sub(f_mul(h, b), f_mul(h, z)))
+{
+    broadcast use ring_axioms;
+    let d = f_sub(b, z);
+    lemma_distrib_sub(h, b, z);
+    assert(f_sub(f_mul(h, b), f_mul(h, z)) == f_mul(h, d));
+    assert(f_mul(g, f_mul(w, d)) == f_mul(f_mul(g, w), d));
+    assert(f_mul(c, f_mul(r, d)) == f_mul(f_mul(c, r), d));
+    let s = f_add(f_mul(g, w), f_mul(c, r));
+    assert(f_add(f_mul(f_mul(g, w), d), f_mul(f_mul(c, r), d)) == f_mul(s, d)) by {
+        assert(f_mul(d, s) == f_add(f_mul(d, f_mul(g, w)), f_mul(d, f_mul(c, r))));
+    }
+    assert(f_mul(f_mul(s, d), h) == f_mul(s, f_mul(d, h)));
+    assert(f_mul(d, h) == f_mul(h, d));
+}
+// (a + y) + (c + x) - ... helper: (g*(q + pz) + c*(t + rz)) - g*pz - c*rz == g*q + c*t
+proof fn lemma_kzg_cancel(g: FS, c: FS, q: FS, pz: FS, t: FS, rz: FS)
+    ensures f_sub(f_sub(f_add(f_mul(g, f_add(q, pz)), f_mul(c, f_add(t, rz))), f_mul(g, pz)), f_mul(c, rz)) == f_add(f_mul(g, q), f_mul(c, t))
+{
+    broadcast use ring_axioms;
+    let gq = f_mul(g, q); let gp = f_mul(g, pz); let ct = f_mul(c, t); let cr = f_mul(c, rz);
+    assert(f_mul(g, f_add(q, pz)) == f_add(gq, gp));
+    assert(f_mul(c, f_add(t, rz)) == f_add(ct, cr));
+    lemma_add_swap(gq, gp, ct, cr);
+    // (gq + ct) + (gp + cr) - gp - cr
+    let a = f_add(gq, ct);
+    assert(f_add(f_add(a, f_add(gp, cr)), f_neg(gp)) == f_add(a, cr)) by {
+        assert(f_add(f_add(a, f_add(gp, cr)), f_neg(gp)) == f_add(a, f_add(f_add(gp, cr), f_neg(gp))));
+        assert(f_add(f_add(gp, cr), f_neg(gp)) == cr) by {
+            assert(f_add(gp, cr) == f_add(cr, gp));
+            assert(f_add(f_add(cr, gp), f_neg(gp)) == f_add(cr, f_add(gp, f_neg(gp))));
+        }
+    }
+    assert(f_add(f_add(a, cr), f_neg(cr)) == f_add(a, f_add(cr, f_neg(cr))));
+}
+
+//@lemma props=C01
+pub proof fn lemma_kzg10_complete(powers: &Powers, vk: &VerifierKey, beta: FS, p: &Poly, point: Fr, rand: &Randomness, comm: Commitment, proof: Proof)
+    requires
+        srs_ok(powers, vk, beta),
+        p.len() <= powers.powers_of_g@.len(),
+        rand.blinding_polynomial.len() <= powers.powers_of_gamma_g@.len(),
+        comm.0@ == commit_spec(powers, p.cv(), rand.blinding_polynomial.cv()),   // postcondition kzg10.commit.value
+        open_spec(powers, p, point, rand, proof),                                // postcondition kzg10.open.proof_is_commitment_to_quotient
+    ensures
+        kzg_relation(vk, &comm, point, Fr::mk(p.ev(point@)), &proof),
+{
+    let (w, hw): (Poly, Option<Poly>) = choose|w: Poly, hw: Option<Poly>| #![trigger w.cv(), hw.is_some()]
+        (forall|x: FS| p.ev(x) == f_add(f_mul(#[trigger] w.ev(x), f_sub(x, point@)), p.ev(point@)))
+        && (hw is Some) == !rand.blinding_polynomial.is_zero_spec()
+        && (hw is Some ==> (forall|x: FS| rand.blinding_polynomial.ev(x) == f_add(f_mul(#[trigger] hw->Some_0.ev(x), f_sub(x, point@)), rand.blinding_polynomial.ev(point@))))
+        && proof.w@ == f_add(msm(powers.powers_of_g@, w.cv(), w.len()),
+              match hw { Some(h) => msm(powers.powers_of_gamma_g@, h.cv(), min(powers.powers_of_gamma_g@.len(), h.len())), None => f_zero() })
+        && (proof.random_v is Some) == (hw is Some)
+        && (hw is Some ==> proof.random_v->Some_0@ == rand.blinding_polynomial.ev(point@))
+        && w.len() <= powers.powers_of_g@.len()
+        && (hw is Some ==> hw->Some_0.len() + 1 <= rand.blinding_polynomial.len() || hw->Some_0.len() == 0);
+    let g = vk.g@; let c = vk.gamma_g@; let h = vk.h@; let z = point@;
+    let r = rand.blinding_polynomial;
+    let pb = p.ev(beta); let pz = p.ev(z); let wb = w.ev(beta);
+    let rb = r.ev(beta); let rz = r.ev(z);
+    let d = f_sub(beta, z);
+    lemma_pow0(beta, g); lemma_pow0(beta, c);
+    lemma_dot_geometric(g1views(powers.powers_of_g@), g, beta, 0, p.cv(), p.len());
+    lemma_dot_geometric(g1views(powers.powers_of_gamma_g@), c, beta, 0, r.cv(), r.len());
+    lemma_dot_geometric(g1views(powers.powers_of_g@), g, beta, 0, w.cv(), w.len());
+    assert(comm.0@ == f_add(f_mul(g, pb), f_mul(c, rb)));
+    assert(pb == f_add(f_mul(wb, d), pz));
+    match hw {
+        Some(hwp) => {
+            let hb = hwp.ev(beta);
+            lemma_dot_geometric(g1views(powers.powers_of_gamma_g@), c, beta, 0, hwp.cv(), hwp.len());
+            assert(rb == f_add(f_mul(hb, d), rz));
+            assert(proof.w@ == f_add(f_mul(g, wb), f_mul(c, hb)));
+            lemma_kzg_cancel(g, c, f_mul(wb, d), pz, f_mul(hb, d), rz);
+            lemma_kzg_algebra(g, c, h, beta, z, wb, hb);
+        }
+        None => {
+            // non-hiding: blinding polynomial is zero
+            lemma_peval_zero(r.cv(), beta, r.len());
+            lemma_kzg_nonhiding(g, c, h, beta, z, wb, pz);
+        }
+    }
+}
+// non-hiding instance: ((g*(W*(b-z) + pz) + c*0) - g*pz) * h == (g*W + 0) * (h*b - h*z)
+proof fn lemma_kzg_nonhiding(g: FS, c: FS, h: FS, b: FS, z: FS, w: FS, pz: FS)
+    ensures f_mul(f_sub(f_add(f_mul(g, f_add(f_mul(w, f_sub(b, z)), pz)), f_mul(c, f_zero())), f_mul(g, pz)), h)
+         == f_mul(f_add(f_mul(g, w), f_zero()), f_sub(f_mul(h, b), f_mul(h, z)))
+{
+    broadcast use ring_axioms;
+    lemma_mul_zero(c);
+    let d = f_sub(b, z);
+    lemma_kzg_cancel(g, c, f_mul(w, d), pz, f_zero(), f_zero());
+    lemma_kzg_algebra(g, c, h, b, z, w, f_zero());
+    lemma_mul_zero(d);
+}
+
+// ======================= C02: every part of the statement is pinned by an accepting check =======================
+// (stronger than the property: no honesty assumption on the proof; uses only the field axioms)
+proof fn lemma_sub_cancel_left(a: FS, x: FS, y: FS)
+    requires f_sub(a, x) == f_sub(a, y)
+    ensures x == y
+{
+    broadcast use ring_axioms;
+    assert(f_add(f_neg(x), a) == f_add(f_neg(y), a));
+    lemma_add_cancel(f_neg(x), f_neg(y), a);
+    lemma_neg_neg(x); lemma_neg_neg(y);
+}
+proof fn lemma_sub_cancel_right(a: FS, b: FS, k: FS)
+    requires f_sub(a, k) == f_sub(b, k)
+    ensures a == b
+{ lemma_add_cancel(a, b, f_neg(k)); }
+
+//@lemma props=C02
+pub proof fn lemma_kzg10_value_unique(vk: &VerifierKey, comm: &Commitment, point: Fr, v1: Fr, v2: Fr, proof: &Proof)
+    requires vk.g@ != f_zero(), vk.h@ != f_zero(),
+             kzg_relation(vk, comm, point, v1, proof), kzg_relation(vk, comm, point, v2, proof),
+    ensures v1@ == v2@
+{
+    lemma_mul_cancel(kzg_lhs(vk, comm, v1, proof), kzg_lhs(vk, comm, v2, proof), vk.h@);
+    let a1 = f_sub(comm.0@, f_mul(vk.g@, v1@)); let a2 = f_sub(comm.0@, f_mul(vk.g@, v2@));
+    match proof.random_v {
+        Some(rv) => { lemma_sub_cancel_right(a1, a2, f_mul(vk.gamma_g@, rv@)); }
+        None => {}
+    }
+    lemma_sub_cancel_left(comm.0@, f_mul(vk.g@, v1@), f_mul(vk.g@, v2@));
+    broadcast use ax_mul_comm;
+    lemma_mul_cancel(v1@, v2@, vk.g@);
+}
+//@lemma props=C02
+pub proof fn lemma_kzg10_commitment_unique(vk: &VerifierKey, c1: &Commitment, c2: &Commitment, point: Fr, v: Fr, proof: &Proof)
+    requires vk.h@ != f_zero(),
+             kzg_relation(vk, c1, point, v, proof), kzg_relation(vk, c2, point, v, proof),
+    ensures c1.0@ == c2.0@
+{
+    lemma_mul_cancel(kzg_lhs(vk, c1, v, proof), kzg_lhs(vk, c2, v, proof), vk.h@);
+    let a1 = f_sub(c1.0@, f_mul(vk.g@, v@)); let a2 = f_sub(c2.0@, f_mul(vk.g@, v@));
+    match proof.random_v {
+        Some(rv) => { lemma_sub_cancel_right(a1, a2, f_mul(vk.gamma_g@, rv@)); }
+        None => {}
+    }
+    lemma_sub_cancel_right(c1.0@, c2.0@, f_mul(vk.g@, v@));
+}
+//@lemma props=C02
+pub proof fn lemma_kzg10_point_unique(vk: &VerifierKey, comm: &Commitment, z1: Fr, z2: Fr, v: Fr, proof: &Proof)
+    requires vk.h@ != f_zero(), proof.w@ != f_zero(),
+             kzg_relation(vk, comm, z1, v, proof), kzg_relation(vk, comm, z2, v, proof),
+    ensures z1@ == z2@
+{
+    let r1 = f_sub(vk.beta_h@, f_mul(vk.h@, z1@)); let r2 = f_sub(vk.beta_h@, f_mul(vk.h@, z2@));
+    assert(f_mul(proof.w@, r1) == f_mul(proof.w@, r2));
+    broadcast use ax_mul_comm;
+    lemma_mul_cancel(r1, r2, proof.w@);
+    lemma_sub_cancel_left(vk.beta_h@, f_mul(vk.h@, z1@), f_mul(vk.h@, z2@));
+    lemma_mul_cancel(z1@, z2@, vk.h@);
+}
